@@ -258,6 +258,6 @@ def select(seed, cfg, lv, v6):
         rb = GoRand(sv).read(net["bits"] // 8)
         off = int.from_bytes(rb, "big") & (((1 << net["bits"]) - 1) >> net["ones"])
     a = net["ebase"] + off
-    if a.bit_length() > 8 * net["alen"]:
+    if a.bit_length() > 8 * net["alen"] or (net["alen"] == 16 and a >> 32 == 0xFFFF):
         return ("err", "offset")
     return ("ok", a.to_bytes(net["alen"], "big"), rp, gi, ni, off)
